@@ -1,5 +1,5 @@
 (* Properties/C12.v -- runtime tracebacks and compile warnings map to template lines *)
-From MakoV Require Import Lib.Str Model.LineMap Proofs.LineMapProofs.
+From MakoV Require Import Lib.Str Model.LineMap Proofs.LineMapProofs Proofs.LineMapE2E.
 Open Scope N_scope.
 
 (* for every sparse line map and every module line below its greatest key, the dense map used by
@@ -34,6 +34,18 @@ Theorem C12_block_lines_exact : forall n s st i,
   assocN (lineno s + N.of_nat i) (smap (block s n (Some st))) = Some (st + N.of_nat i).
 Proof. exact block_lines_exact. Qed.
 Print Assumptions C12_block_lines_exact.
+
+(* end to end, for every sequence of printer operations before and after: a construct that starts at a
+   fresh module line and writes k lines is shown, for every one of those lines, at the template line it
+   gave to start_source -- through the sparse map, the sentinel entry and the dense map *)
+Theorem C12_lines_translate_to_construct : forall pre n k rest,
+  let s := prun pre in
+  assocN (lineno s) (smap s) = None -> 1 <= k -> Forall (fun o => o <> PMeta) rest ->
+  let final := fold_left pstep ((PStart n :: PWrite k :: rest) ++ [PMeta]) s in
+  forall j, lineno s <= j < lineno s + k ->
+  nth_error (full_line_map (smap final)) (N.to_nat (j - 1)) = Some n.
+Proof. exact lines_translate_to_construct. Qed.
+Print Assumptions C12_lines_translate_to_construct.
 
 (* what the "first entry wins" rule means for a construct that writes no line of its own *)
 Theorem C12_first_entry_wins : forall s n1 n2,
